@@ -69,7 +69,7 @@ def panic_sites(F, b):
             out.append((bi, "explicit", {"mac": mac or last}))
         elif last in ("unwrap", "expect") and ("option::Option" in q or "result::Result" in q):
             out.append((bi, "unwrap", {"recv": t["args"][0], "what": last}))
-        elif last in ("index", "index_mut") and ("Index" in q):
+        elif last in ("index", "index_mut") and ("Index" in q or str(t["fn"].get("trait", "")).startswith("std::ops::Index") or str(t["fn"].get("d", "")).startswith("std::ops::Index")):
             ity = t["fn"].get("targs", [])
             out.append((bi, "index", {"base": t["args"][0], "index": t["args"][1], "q": q, "targs": ity}))
         elif last in POS_MUTATORS and ("vec::Vec" in q or "string::String" in q or "slice::" in q or "str::" in q):
@@ -263,7 +263,7 @@ def _discharge_in(F, b, A, z, bi, cls, d):
         ln = (lt, 0)
         idx_ty = _op_ty(b, ix) or ""
         t0 = (d.get("targs") or [""])[0]
-        is_str = t0 in ("str", "std::string::String", "&str", "&std::string::String") or "for str>" in d["q"] or "string::String as" in d["q"]
+        is_str = t0 in ("str", "std::string::String", "&str", "&std::string::String") or "for str>" in d["q"] or "string::String as" in d["q"] or d["q"].startswith("core::str::")
         if "Range" in idx_ty:
             p = op_place(ix)
             if p is None or place_proj(p):
@@ -283,6 +283,8 @@ def _discharge_in(F, b, A, z, bi, cls, d):
             if not ok:
                 return None
             if is_str:
+                if _ascii_guarded(b, bi, base):
+                    return "zone: start <= end <= len; the string passed is_ascii() (every byte is a boundary)"
                 return None if not _boundaries_ok(F, b, A, z, bi, st, en, lt) else "zone: start <= end <= len; ends on char boundaries"
             return "zone: start <= end <= len"
         if is_str:
@@ -373,6 +375,16 @@ def _bool_edge_dominates(b, call_bi, want_true, site_bi):
     return tgt is not None and tgt != (f_t if tgt == t_t else t_t) and len(b.preds(tgt)) == 1 and b.dominates(tgt, site_bi)
 
 
+def _ascii_guarded(b, bi, base_op):
+    """the str being sliced was tested with is_ascii() and the true edge of that test dominates the site"""
+    who = _atom(b, base_op)
+    for cbi, t in b.calls():
+        if (b.callee_q(t) or "").endswith("::is_ascii") and t["args"] and _atom(b, t["args"][0]) == who and who != "expr":
+            if _bool_edge_dominates(b, cbi, True, bi):
+                return True
+    return False
+
+
 def _guarded_unwrap(b, bi, d):
     """unwrap()/expect() of
        * `node.attribute(K)` dominated by the true edge of `node.has_attribute(K)` (same node, same literal K);
@@ -443,7 +455,14 @@ _PF = ("parsed_formulas has one entry per worksheet (pushed/removed together wit
        "validated against workbook.worksheets a few lines earlier; the equality of the two lengths is not derived here")
 C25_ENTRIES = ["import::load_from_xlsx_bytes", "import::load_from_xlsx", "import::load_from_icalc", "model::Model::from_workbook", "model::Model::from_bytes"]
 C25_STOPS = ["model::Model::evaluate", "model::Model::evaluate_cell", "model::Model::evaluate_node_in_context", "model::Model::evaluate_conditional_formatting"]
+_ESC = ("byte offsets delimited by ASCII bytes just tested (`_`, `x` before, `_` after) or advanced by 7 ASCII bytes / "
+        "len_utf8() of the char just read: always char boundaries; that string-content argument is outside the zone domain")
 C25_EXCEPTIONS = {
+    ("import::styles::parse_indexed_colors::{closure#3}", "index:(*raw)[..]"):
+        "`raw[2..]` in a match arm whose guard is `raw.len() == 8 && raw.is_ascii()` on the same attribute value; guard and arm bind "
+        "`raw` separately (by reference / by copy), which the term naming of the zone engine does not unify",
+    ("import::shared_strings::decode_xlsx_escapes", "index:(*s)[..]"): _ESC,
+    ("import::shared_strings::decode_xlsx_escapes", "index:(*s)[..]#2"): _ESC,
     ("import::conditional_formatting::load_conditional_formatting", "usub:iter - priority"):
         "`max_p + 1 - cf.priority` where max_p is the maximum of cf.priority over the very list being iterated",
     ("import::worksheets::load_sheet", "mutator:insert"):
@@ -456,7 +475,16 @@ C25_EXCEPTIONS = {
     ("language::get_languages::{closure#0}", "unwrap:expect(decode)"): "decodes the embedded language.bin; C34 (DERIVE-CLOSURE, BYTES-SHAPE, source_matches_bin) shows the bytes are the encoding of this type",
     ("locale::get_locales::{closure#0}", "unwrap:expect(decode)"): "decodes the embedded locales.bin; same argument as language.bin (C34)",
 }
+_TOK = ("offsets are MarkedToken.start/end produced by get_tokens_with_locale for this very text (character positions the "
+        "lexer reached, <= its length) shifted by the leading '='; that cross-function relation is not derived here")
+_CTT = ("cycle_token_text scans its own slice: `bang` is a position found by iter().skip(i).position(..) so i + bang + 1 <= n, "
+        "and part_start <= i <= n in the endpoint loop; the Iterator::position relation is outside the zone domain")
 C11_EXCEPTIONS = {
+    ("expressions::lexer::util::cycle_reference", "index:(*body)[..]"): _TOK,
+    ("expressions::lexer::util::cycle_reference", "index:(*body)[..]#2"): _TOK,
+    ("expressions::lexer::util::cycle_reference", "index:(*body)[..]#3"): _TOK,
+    ("expressions::lexer::util::cycle_token_text", "index:(*text)[..]"): _CTT,
+    ("expressions::lexer::util::cycle_token_text", "index:(*text)[..]#2"): _CTT,
     ("expressions::lexer::Lexer::consume_column_reference", "index:(*self).chars[..]#2"): _LEXER_INV,
     ("formatter::format::format_number", "index:int_part[..]"): _DIGITS,
     ("formatter::format::format_number", "index:int_part[..]#2"): _DIGITS,
